@@ -52,7 +52,7 @@ def gen_delays(rng, nlines, style=None):
     return d, style
 
 
-def gen_stimulus(rng, c, sims, tmax=12, extra_prob=0.4, max_trans=3):
+def gen_stimulus(rng, c, sims, tmax=12, extra_prob=0.4, max_trans=3, busy=False):
     """s[0..2] per s_node and lane; plus multi-transition waveforms for some PI/PPI slots."""
     slen = len(c.s_nodes)
     s0 = np.array([[rng.randint(0, 1) for _ in range(sims)] for _ in range(slen)], dtype=np.float32)
@@ -63,7 +63,7 @@ def gen_stimulus(rng, c, sims, tmax=12, extra_prob=0.4, max_trans=3):
         for lane in range(sims):
             if rng.random() < extra_prob:
                 ini = rng.randint(0, 1)
-                n = rng.randint(0, max_trans - ini)
+                n = max_trans - ini if (busy and rng.random() < 0.8) else rng.randint(0, max_trans - ini)
                 ts = sorted(rng.sample(range(0, tmax + 4), n))
                 w = (['MinInf'] if ini else []) + ts + ['MaxInf']
                 extra[(p, lane)] = w
